@@ -280,6 +280,15 @@ class BundleFlattener(ElabPass):
                 self.fail(msg)
             inst.connect(flat_port.name, flat.signals[path])
 
+        # And check for anything connected which the port does not have
+        extras = [path for path in flat.signals if path not in flat_bundle_port.signals]
+        if extras:
+            msg = f"Invalid connection to `{extras[0]}` "
+            msg += f"in Connection to `{portname}` on Instance `{inst.name}`. "
+            msg += f"The port has Signals `{list(flat_bundle_port.signals.keys())}`, "
+            msg += f"but no `{extras[0]}`."
+            self.fail(msg)
+
     def flatten_bundle_inst(
         self, bundle_inst: BundleInstance, path: Path
     ) -> BundleScope:
